@@ -262,6 +262,10 @@ func (c *Conn) Close() error {
 	if err != nil {
 		return err
 	}
+	// The stream is closed: stop accepting packets for it.
+	// This happens while input processing is still waiting for us to close the
+	// response, so no packet can be in the middle of being handled.
+	c.handler.rmStream(c.stanzaWriter.sid)
 	close(c.readReady)
 	return respReadCloser.Close()
 }
